@@ -496,6 +496,11 @@ def validate_prior_parameters(
     for param_name, param in params:
         if attempt_array_conversion(param):
             param = atleast_1d(param).astype(float)
+        elif isinstance(param, ndarray) and param.dtype.kind in "iubf":
+            # (numbers held in an integer / narrow floating-point array are used as the
+            # floats they are: upper - lower of int8 limits wraps around, log() of a
+            # uint8 array is evaluated in half precision)
+            param = param.astype(float)
 
         if not isinstance(param, ndarray):
             raise TypeError(
